@@ -240,6 +240,10 @@ def execute(sc, ctx):
                                                               and all(x is y for x, y in zip(got2, got))),
                           "listing-accessors-disagree", f"{where}: systems[T] vs get_components(T)")
                 if not want:
+                    # the pools dict is public (the docs point at it): looking a type up there must not create anything
+                    st_, v_ = ctx.call(sm.component_pools.__getitem__, T)
+                    ctx.check(st_ == "exc" and isinstance(v_, KeyError), "empty-listing-strict",
+                              f"{where}: component_pools[{T.__name__}] with nothing registered did not raise KeyError")
                     st, v = ctx.call(sm.get_components, T, True)
                     ctx.check(st == "exc" and isinstance(v, KeyError), "empty-listing-strict",
                               f"{where}: get_components({T.__name__}, True) on an empty listing did not raise KeyError")
